@@ -276,6 +276,7 @@ func main() {
 		return
 	}
 	run := ev.Start("C04")
+	defer run.Guard()
 	run.Rule("codec level: case = (generation, reader constructor, decode program or generated type, input); inputs = every string of up to N tokens over the ROR2, JSON and query-string delimiter alphabets, every truncation and sampled single edits of valid encodings of generated values in all five wire formats, 50 hostile untyped Go values; " +
 		"HTTP level: case = (mounting, generated method, mutated request or mutated response), see the http.* counters. A panic recovered from library code, a 5xx / stack trace / dropped connection for any request against resources that always succeed, an invocation for a request whose body or key does not parse, or a panic in the caller's goroutine is a violation; a stalled worker is re-run alone before it counts. " +
 		"distinct = distinct (format, program or type, outcome class) for the codec level + (method kind, mutation class, status class) for HTTP")
